@@ -23,10 +23,12 @@ def relpath(m, layout):
     return modname(m, layout).replace('.', '/') + '.py'
 
 
-def content(m, ver, lk, layout):
-    """module m at version ver"""
+def content(m, ver, lk, layout, back=False):
+    """module m at version ver; back: the last module star-imports the first one (an import cycle)"""
     n = NAMES[m]
     lines = ['# %s version %d' % (n, ver)]
+    if back and m == 3:
+        lines.append('from mb import *')
     if m < 3:
         nxt = NAMES[m + 1]
         nxtmod = modname(m + 1, layout)
@@ -163,7 +165,7 @@ def run_job(job, root):
     def write(m, ver):
         p = os.path.join(root, relpath(m, layout))
         with open(p, 'w') as fd:
-            fd.write(content(m, ver, lk, layout))
+            fd.write(content(m, ver, lk, layout, job.get('back', False)))
         touch(m)
         disk[m] = ver
 
